@@ -2,7 +2,7 @@
 import vfx
 from props import hist, histprop, spec, c08
 
-CONFIGS = ["mem", "alt_mem", "alt_phys", "ovl_mm", "ovl_mmm", "ovl_pp", "ovl_sub", "alt_ovl", "ovl_alt", "ovl_ovl", "phys"]
+CONFIGS = ["mem", "alt_mem", "alt_phys", "ovl_mm", "ovl_mmm", "ovl_4", "ovl_pp", "ovl_sub", "alt_ovl", "ovl_alt", "ovl_ovl", "phys"]
 OPS = ["createdir", "createdirall", "createfile", "append", "removefile", "removedir", "removedirall", "copyfile", "movefile",
        "copydir", "movedir", "readdir", "metadata", "exists", "readtostring", "walkdir", "isfile", "isdir"]
 
